@@ -1,5 +1,7 @@
 import PyPhysim.Proofs.C09Example
 import PyPhysim.Proofs.C09Noise
+import PyPhysim.Proofs.C09Scale
+import PyPhysim.Proofs.C09Metric
 
 /-!
 # C09 — block diagonalisation nulls inter-user interference within the power budget
@@ -152,6 +154,21 @@ theorem effective_channel_full_rank (c : Pf.BDContract hK H VH1 VH2 S2) (Hinv : 
     ∃ G : Mat ℂ (K * N) (K * N), matMul G (matMul H (msBad (calcBD hK H VH1 VH2 S2))) = eye :=
   Pf.effective_left_inverse H Hinv _ hH (Pf.calcBD_orthonormal hK H VH1 VH2 S2 c)
     (fun j k hjk => Pf.calcBD_null hK H VH1 VH2 S2 c j k hjk)
+
+/-- scale covariance: a common gain / path loss `c ≠ 0` on the whole channel (`H ↦ c·H`).
+    The SVD factors `V_H` of `H` satisfy the kernel contract for `c·H` as well (whatever the
+    singular values `S2'` reported for the scaled channel), and with them — and the same
+    water-filling powers `p` — both methods return exactly the same precoder, while the
+    effective channel is `c` times the old one.  So every clause proved above (nulling,
+    power, receive filter) is independent of the channel's overall scale; an absolute
+    threshold anywhere in the rank / null-space computation would break this. -/
+theorem scale_covariance (S2' : Fin K → Fin N → ℝ) (c : ℂ) (hc : c ≠ 0) (iPu : ℝ) (p : Fin (K * N) → ℝ) :
+    (Pf.BDContract hK (scaleMat c H) VH1 VH2 S2' ↔ Pf.BDContract hK H VH1 VH2 S2) ∧
+    (blockDiagonalizeNoWF hK iPu (scaleMat c H) VH1 VH2 S2').2 = (blockDiagonalizeNoWF hK iPu H VH1 VH2 S2).2 ∧
+    (blockDiagonalizeNoWF hK iPu (scaleMat c H) VH1 VH2 S2').1 = scaleMat c (blockDiagonalizeNoWF hK iPu H VH1 VH2 S2).1 ∧
+    (blockDiagonalize hK iPu (scaleMat c H) VH1 VH2 S2' p).2 = (blockDiagonalize hK iPu H VH1 VH2 S2 p).2 ∧
+    (blockDiagonalize hK iPu (scaleMat c H) VH1 VH2 S2' p).1 = scaleMat c (blockDiagonalize hK iPu H VH1 VH2 S2 p).1 :=
+  ⟨Pf.contract_scale hK H VH1 VH2 S2 S2' c hc, rfl, Pf.scaleMat_matMul c H _, rfl, Pf.scaleMat_matMul c H _⟩
 
 /-- non-vacuity: the kernel contract and the full-rank hypothesis are satisfied by a
     concrete complex 2-user channel (`H = [[3, 4i], [4i, 3]]`, its exact SVD factors),
@@ -319,5 +336,57 @@ theorem stream_counts_match_decide (hN : 0 < N) (iPu : ℝ) (Hk : Mat ℂ N T) (
     rw [← hi]; exact i.isLt
 
 end enhanced
+
+/-! ## robustness: value semantics, rejected calls, long-lived objects -/
+section robustness
+
+/-- R1 / R2 / R3 (model side): the methods are functions of the logical VALUES of their
+    arguments only — two channels / kernel results with the same entries give the same precoder
+    and effective channel (no dependence on element type, memory layout or object identity), and
+    the result is a fresh value that shares nothing with the arguments -/
+theorem value_semantics {K N : Nat} (hK : 0 < K) (iPu iPu' : ℝ) (H H' : Mat ℂ (K * N) (K * N))
+    (VH1 VH1' : Fin K → Mat ℂ (K * N) (K * N)) (VH2 VH2' : Fin K → Mat ℂ N N) (S2 S2' : Fin K → Fin N → ℝ)
+    (p p' : Fin (K * N) → ℝ)
+    (hH : ∀ i j, H i j = H' i j) (h1 : ∀ k i j, VH1 k i j = VH1' k i j) (h2 : ∀ k i j, VH2 k i j = VH2' k i j)
+    (hS : ∀ k i, S2 k i = S2' k i) (hp : ∀ j, p j = p' j) (hP : iPu = iPu') :
+    blockDiagonalize hK iPu H VH1 VH2 S2 p = blockDiagonalize hK iPu' H' VH1' VH2' S2' p' ∧
+    blockDiagonalizeNoWF hK iPu H VH1 VH2 S2 = blockDiagonalizeNoWF hK iPu' H' VH1' VH2' S2' := by
+  have e1 : H = H' := funext fun i => funext fun j => hH i j
+  have e2 : VH1 = VH1' := funext fun k => funext fun i => funext fun j => h1 k i j
+  have e3 : VH2 = VH2' := funext fun k => funext fun i => funext fun j => h2 k i j
+  have e4 : S2 = S2' := funext fun k => funext fun i => hS k i
+  have e5 : p = p' := funext hp
+  subst e1 e2 e3 e4 e5 hP
+  exact ⟨rfl, rfl⟩
+
+/-- R4: a rejected `set_ext_int_handling_metric` call (missing `num_streams`, missing
+    modulator / packet length, unknown metric name) leaves the object exactly as it was -/
+theorem set_metric_rejected_unchanged (s : MetricState) (r : MetricReq) (a : ExtraArgs)
+    (h : (setMetric s r a).2 ≠ none) : (setMetric s r a).1 = s :=
+  Pf.setMetric_rejected s r a h
+
+/-- R7: whether a request is accepted does not depend on the history of the object, and an
+    accepted request determines the new configuration completely — the object then behaves like
+    a freshly built one given the same request -/
+theorem set_metric_like_fresh (s s' : MetricState) (r : MetricReq) (a : ExtraArgs) :
+    (setMetric s r a).2 = (setMetric s' r a).2 ∧
+      ((setMetric s r a).2 = none → (setMetric s r a).1 = (setMetric s' r a).1) :=
+  ⟨Pf.setMetric_error_indep s s' r a, Pf.setMetric_accepted_indep s s' r a⟩
+
+/-- R4 / R7: the rejected calls can be deleted from any history of setter calls, and the
+    configuration after a history is the one a fresh object gets from the last accepted request -/
+theorem metric_history (s : MetricState) (ops tail : List (MetricReq × ExtraArgs)) (r : MetricReq) (a : ExtraArgs)
+    (hacc : Pf.accepted (r, a) = true) (htail : ∀ x ∈ tail, Pf.accepted x = false) :
+    runMetricHistory s (ops ++ (r, a) :: tail) = runMetricHistory s ((ops ++ (r, a) :: tail).filter Pf.accepted) ∧
+    runMetricHistory s (ops ++ (r, a) :: tail) = (setMetric default r a).1 :=
+  ⟨Pf.runMetricHistory_filter s _, Pf.runMetricHistory_last s ops r a tail hacc htail⟩
+
+/-- R3: only the keys the metric needs are copied out of the caller's dictionary -/
+theorem set_metric_copies_needed_keys (s : MetricState) (a : ExtraArgs) (n : Nat) (ha : a.numStreams = some n) :
+    (setMetric s .naive a).1.args = { numStreams := some n } ∧
+      (setMetric s .fixed a).1.args = { numStreams := some n } := by
+  simp [setMetric, ha]
+
+end robustness
 
 end PyPhysim.C09
